@@ -4,7 +4,7 @@
     EOF signal, written [SEof]); "encodable": the text can be represented in the
     effective encoding (otherwise the worker dies with UnicodeEncodeError --
     outside the statement). *)
-From InvokeVerif Require Import Corr.C13Corr Proofs.C02_decode Proofs.C13_stdin.
+From InvokeVerif Require Import Corr.C13Corr Proofs.C02_decode Proofs.C13_stdin Proofs.C13_streams.
 Local Open Scope N_scope.
 
 (** Each delivered unit is written to the command's stdin exactly once, in
@@ -99,6 +99,51 @@ Theorem C13_stdin_meets_spec_text_mode :
      end) = true -> spec_in i (stdin_model i) = true.
 Proof. exact stdin_meets_spec_text. Qed.
 
+(** ** The kind of input stream (real, non-terminal text streams of any length).
+
+    [real_in k e echo pty p t]: the input stream is an in-memory text stream
+    ([KMemory]), a regular file opened in text mode ([KFile]), the read end of a pipe
+    behind a TextIOWrapper ([KPipe]) or a duck-typed object with a descriptor
+    ([KProxy]); [t] is the text its text layer yields (decoded with the FILE's
+    encoding, newlines translated as the file was opened) -- of any length, no bound;
+    the command finishes before read number [p].  Model/InStreamModel.v: the code
+    asks every non-terminal stream for one character at a time through the object's
+    own [read], whatever it is. *)
+
+(** The command receives exactly the text, encoded in the effective encoding;
+    its stdin is closed once (never under a pty); the text is mirrored exactly when
+    wanted; the worker leaves its loop. *)
+Theorem C13_real_stream_receives_whole_text :
+  forall k e echo pty p t w,
+    encode e t = Some w ->
+    stdin_model (real_in k e echo pty p t) =
+    mkSobs (Some w) (if pty then 0 else 1)%nat (if echo_wanted echo pty false then t else []) true (Some []).
+Proof. exact real_stream_receives_whole_text. Qed.
+
+(** Neither the kind of stream nor the moment the command finishes changes anything
+    that is observed (no guard: also when the text is not encodable). *)
+Theorem C13_stream_kind_irrelevant :
+  forall k1 k2 e echo pty p q t,
+    stdin_model (real_in k1 e echo pty p t) = stdin_model (real_in k2 e echo pty q t).
+Proof. exact real_stream_independent. Qed.
+
+(** Against the executable spec, which is told only "this text is on the stream,
+    then end-of-file; the command finishes" ([spec_view]: no reads, no kinds): no guard. *)
+Theorem C13_real_stream_meets_spec :
+  forall k e echo pty p t,
+    spec_in (spec_view e echo pty t) (stdin_model (real_in k e echo pty p t)) = true.
+Proof. exact real_stream_meets_spec. Qed.
+
+(** The same through the correspondence record of the checked cases: a real-stream
+    case whose observation is the model's passes [corr] and [spec]. *)
+Theorem C13_real_case_model_meets_spec :
+  forall i k p t,
+    si_stream i = Some (MText, false) -> si_responses i = [] ->
+    let o := stdin_model (real_in k (si_enc i) (si_echo i) (si_pty i) p t) in
+    corr (mk i (Some (mkReal k p t)) true true true o) = true /\
+    spec (mk i (Some (mkReal k p t)) true true true o) = true.
+Proof. exact real_case_model_meets_spec. Qed.
+
 (** Findings witnessed on real processes only.  F-C13b (buffered text stream over an
     open pipe strands characters), F-C13c (a BOM per read for BOM encodings), F-C13d
     (a multi-byte key typed at a terminal is held back) and F-C12d (a watcher response
@@ -124,3 +169,12 @@ Proof. vm_compute. split; reflexivity. Qed.
 Example C13_ex_witness :        (* the refutation witness: two U+FFFD (EF BF BD) instead of C3 A9 *)
   stdin_model witness_c13 = mkSobs (Some [239; 191; 189; 239; 191; 189]) 1 [] true (Some []).
 Proof. vm_compute. reflexivity. Qed.
+
+Example C13_ex_real_stream :    (* a file holding "x", U+1F600, e-acute, LF; the command finishes after two reads; echo on *)
+  let t := [120; 128512; 233; 10] in
+  encode Utf8 t = Some [120; 240; 159; 152; 128; 195; 169; 10] /\
+  real_script KFile 2 t = [SData [120]; SData [128512]; SFinish; SData [233]; SData [10]; SEof] /\
+  stdin_model (real_in KFile Utf8 (Some true) false 2 t) =
+    mkSobs (Some [120; 240; 159; 152; 128; 195; 169; 10]) 1 t true (Some []) /\
+  stdin_model (real_in KPipe Utf8 (Some true) false 9 t) = stdin_model (real_in KFile Utf8 (Some true) false 2 t).
+Proof. vm_compute. repeat split; reflexivity. Qed.
